@@ -7,6 +7,7 @@ import (
 	"context"
 	"strconv"
 	"strings"
+	"sync"
 	"time"
 
 	"github.com/pinealctx/neptune/queue/priq"
@@ -30,7 +31,16 @@ type Act struct {
 	Kind  string `json:"kind"`
 	Ccap  int    `json:"ccap"`
 	Rcap  int    `json:"rcap"`
-	Bg    bool   `json:"bg"` // waitclose / waitclear: live context (false: a context that has ended)
+	Bg    bool   `json:"bg"`  // waitclose / waitclear: live context (false: a context that has ended)
+	Vk    int    `json:"-"`   // value kind of the item of an add (harness side only)
+	Val   int    `json:"val"` // value class of the item (0: same as V)
+}
+
+func (a Act) class() int {
+	if a.Val != 0 {
+		return a.Val
+	}
+	return a.V
 }
 
 // PlanLine is one line of a TLC-generated plan.
@@ -42,13 +52,13 @@ type PlanLine struct {
 func (a Act) Rec() tr.E {
 	switch a.Op {
 	case "add":
-		return tr.E{"op": a.Op, "lane": a.Lane, "prior": a.Prior, "v": a.V}
+		return tr.E{"op": a.Op, "lane": a.Lane, "prior": a.Prior, "v": a.V, "val": a.class()}
 	case "pop":
 		return tr.E{"op": a.Op, "any": a.Any}
 	case "push":
 		return tr.E{"op": a.Op, "v": a.V, "pr": a.Pr}
 	case "addw":
-		return tr.E{"op": a.Op, "lane": a.Lane, "v": a.V}
+		return tr.E{"op": a.Op, "lane": a.Lane, "v": a.V, "val": a.class()}
 	case "waitclose", "waitclear":
 		return tr.E{"op": a.Op, "bg": a.Bg}
 	}
@@ -67,8 +77,90 @@ func Rb(b bool) tr.E {
 }
 
 // ---------------------------------------------------------------- items
-// The queues carry interface{}: use several representations of the same item id.
+// The queues carry interface{}: the ITEM VALUE is a dimension of the histories.  Every add has an
+// item id V (fresh) and a value; the trace carries the value class Val: V itself for values that
+// are unique to the item, the id of the first owner for a value pushed twice, and a negative class
+// for values that have no identity (untyped nil, typed nil pointer, zero values).  A pop is logged
+// with the class of what came out; the spec compares it with the class of the item it expects.
 type boxed struct{ id int }
+type boxedV struct{ id int }
+
+// value kinds (Act.Vk); 0 = the trace's default representation (Act rep: int, string, *boxed, int64)
+const (
+	VkDefault  = 0
+	VkNil      = 4  // untyped nil                      class -1
+	VkTypedNil = 5  // (*boxed)(nil)                    class -2
+	VkZeroInt  = 6  // 0                                class -3
+	VkEmptyStr = 7  // ""                               class -4
+	VkSlice    = 8  // []int{id}          (uncomparable: a queue that compares items panics)
+	VkMap      = 9  // map[int]int{id: 1} (uncomparable)
+	VkFunc     = 10 // func() int         (uncomparable)
+	VkStruct   = 11 // boxedV{id}         (a value, not a pointer)
+	VkSame     = 12 // the very pointer of an earlier item (class = that item's id)
+)
+
+// ClassOf is the value class a dressed add is logged with.
+func ClassOf(vk, id, same int) int {
+	switch vk {
+	case VkNil:
+		return -1
+	case VkTypedNil:
+		return -2
+	case VkZeroInt:
+		return -3
+	case VkEmptyStr:
+		return -4
+	case VkSame:
+		return same
+	}
+	return id
+}
+
+// values builds item values; pointers are remembered so that the same one can be added twice.
+type values struct {
+	rep  int
+	mu   sync.Mutex // adds of a race build their values on different goroutines
+	ptrs map[int]*boxed
+}
+
+func (m *values) value(a Act) interface{} {
+	switch a.Vk {
+	case VkNil:
+		return nil
+	case VkTypedNil:
+		return (*boxed)(nil)
+	case VkZeroInt:
+		return 0
+	case VkEmptyStr:
+		return ""
+	case VkSlice:
+		return []int{a.V}
+	case VkMap:
+		return map[int]int{a.V: 1}
+	case VkFunc:
+		id := a.V
+		return func() int { return id }
+	case VkStruct:
+		return boxedV{a.V}
+	case VkSame:
+		m.mu.Lock()
+		p := m.ptrs[a.Val]
+		m.mu.Unlock()
+		if p != nil {
+			return p
+		}
+	}
+	x := mkItem(m.rep, a.V)
+	if p, ok := x.(*boxed); ok {
+		m.mu.Lock()
+		defer m.mu.Unlock()
+		if m.ptrs == nil {
+			m.ptrs = map[int]*boxed{}
+		}
+		m.ptrs[a.V] = p
+	}
+	return x
+}
 
 func mkItem(rep, id int) interface{} {
 	switch rep {
@@ -82,20 +174,43 @@ func mkItem(rep, id int) interface{} {
 	return id
 }
 
+// unItem: the value class of a returned item.
 func unItem(x interface{}) (int, bool) {
 	switch v := x.(type) {
+	case nil:
+		return -1, true
 	case int:
+		if v == 0 {
+			return -3, true
+		}
 		return v, true
 	case string:
+		if v == "" {
+			return -4, true
+		}
 		n, err := strconv.Atoi(strings.TrimPrefix(v, "i-"))
 		return n, err == nil
 	case *boxed:
 		if v == nil {
-			return 0, false
+			return -2, true
 		}
 		return v.id, true
 	case int64:
 		return int(v), true
+	case []int:
+		if len(v) == 1 {
+			return v[0], true
+		}
+	case map[int]int:
+		for k := range v {
+			return k, len(v) == 1
+		}
+	case func() int:
+		if v != nil {
+			return v(), true
+		}
+	case boxedV:
+		return v.id, true
 	}
 	return 0, false
 }
@@ -126,8 +241,8 @@ type Keeper interface{ SetKeep(func(interface{})) }
 
 // ItemReply decodes a kept item (list queues: int / string / *boxed / int64; priq: *pitem).
 func ItemReply(x interface{}) tr.E {
-	if it, ok := x.(*pitem); ok && it != nil {
-		return Rp("item", it.id)
+	if id, ok := entryID(x); ok {
+		return Rp("item", id)
 	}
 	return itemReply(x)
 }
@@ -159,6 +274,35 @@ const addwSleep = 5 * time.Millisecond
 type pitem struct{ id, pr int }
 
 func (p *pitem) GetPriority() int { return p.pr }
+
+// entries of other kinds: a plain value, and an uncomparable value (a queue that compares entries
+// with == would panic on it)
+type vitem struct{ id, pr int }
+
+func (p vitem) GetPriority() int { return p.pr }
+
+type uitem struct {
+	id []int
+	pr int
+}
+
+func (p uitem) GetPriority() int { return p.pr }
+
+func entryID(e interface{}) (int, bool) {
+	switch it := e.(type) {
+	case *pitem:
+		if it != nil {
+			return it.id, true
+		}
+	case vitem:
+		return it.id, true
+	case uitem:
+		if len(it.id) == 1 {
+			return it.id[0], true
+		}
+	}
+	return 0, false
+}
 
 // ---------------------------------------------------------------- queues
 // Queue is the common surface.
@@ -194,17 +338,17 @@ func (k *keepT) popReply(x interface{}, err error, closed error) tr.E {
 
 type qQ struct {
 	keepT
-	q   *pq.Q
-	rep int
+	q *pq.Q
+	values
 }
 
 func (w *qQ) Do(a Act) tr.E {
 	switch a.Op {
 	case "add":
 		if a.Prior {
-			return errReply(w.q.AddPriorReq(mkItem(w.rep, a.V)), pq.ErrClosed, pq.ErrReqQFull)
+			return errReply(w.q.AddPriorReq(w.value(a)), pq.ErrClosed, pq.ErrReqQFull)
 		}
-		return errReply(w.q.AddReq(mkItem(w.rep, a.V)), pq.ErrClosed, pq.ErrReqQFull)
+		return errReply(w.q.AddReq(w.value(a)), pq.ErrClosed, pq.ErrReqQFull)
 	case "pop":
 		if a.Any {
 			x, err := w.q.PopAnyway()
@@ -216,7 +360,7 @@ func (w *qQ) Do(a Act) tr.E {
 		w.q.Close()
 		return Rp("ok", 0)
 	case "addw":
-		return errReply(w.q.AddReqAnyway(mkItem(w.rep, a.V), addwSleep), pq.ErrClosed, pq.ErrReqQFull)
+		return errReply(w.q.AddReqAnyway(w.value(a), addwSleep), pq.ErrClosed, pq.ErrReqQFull)
 	}
 	tr.Fatal("q.Q: unsupported op %q", a.Op)
 	return nil
@@ -225,17 +369,17 @@ func (w *qQ) Obs() tr.E { return tr.E{"k": 0} }
 
 type asyncQ struct {
 	keepT
-	q   *aq.Q
-	rep int
+	q *aq.Q
+	values
 }
 
 func (w *asyncQ) Do(a Act) tr.E {
 	switch a.Op {
 	case "add":
 		if a.Prior {
-			return errReply(w.q.AddPrior(mkItem(w.rep, a.V)), aq.ErrClosed, aq.ErrFull)
+			return errReply(w.q.AddPrior(w.value(a)), aq.ErrClosed, aq.ErrFull)
 		}
-		return errReply(w.q.Add(mkItem(w.rep, a.V)), aq.ErrClosed, aq.ErrFull)
+		return errReply(w.q.Add(w.value(a)), aq.ErrClosed, aq.ErrFull)
 	case "pop":
 		if a.Any {
 			x, err := w.q.PopAnyway()
@@ -249,7 +393,7 @@ func (w *asyncQ) Do(a Act) tr.E {
 	case "isclosed":
 		return Rb(w.q.IsClosed())
 	case "addw":
-		return errReply(w.q.AddAnyway(mkItem(w.rep, a.V), addwSleep), aq.ErrClosed, aq.ErrFull)
+		return errReply(w.q.AddAnyway(w.value(a), addwSleep), aq.ErrClosed, aq.ErrFull)
 	case "size":
 		return Rp("size", Clamp(w.q.Size()))
 	}
@@ -260,17 +404,17 @@ func (w *asyncQ) Obs() tr.E { return tr.E{"closed": w.q.IsClosed()} }
 
 type muxQ struct {
 	keepT
-	q   *muxq.Q
-	rep int
+	q *muxq.Q
+	values
 }
 
 func (w *muxQ) Do(a Act) tr.E {
 	switch a.Op {
 	case "add":
 		if a.Prior {
-			return errReply(w.q.AddPriorReq(mkItem(w.rep, a.V)), muxq.ErrClosed, muxq.ErrQFull)
+			return errReply(w.q.AddPriorReq(w.value(a)), muxq.ErrClosed, muxq.ErrQFull)
 		}
-		return errReply(w.q.AddReq(mkItem(w.rep, a.V)), muxq.ErrClosed, muxq.ErrQFull)
+		return errReply(w.q.AddReq(w.value(a)), muxq.ErrClosed, muxq.ErrQFull)
 	case "pop":
 		if a.Any {
 			x, err := w.q.PopAnyway()
@@ -284,7 +428,7 @@ func (w *muxQ) Do(a Act) tr.E {
 	case "isclosed":
 		return Rb(w.q.IsClosed())
 	case "addw":
-		return errReply(w.q.AddReqAnyway(mkItem(w.rep, a.V), addwSleep), muxq.ErrClosed, muxq.ErrQFull)
+		return errReply(w.q.AddReqAnyway(w.value(a), addwSleep), muxq.ErrClosed, muxq.ErrQFull)
 	case "waitclose":
 		return waitReply(w.q.WaitClose(ctxFor(a.Bg)))
 	}
@@ -295,14 +439,14 @@ func (w *muxQ) Obs() tr.E { return tr.E{"closed": w.q.IsClosed()} }
 
 type mqQ struct {
 	keepT
-	q   *mq.MQ
-	rep int
+	q *mq.MQ
+	values
 }
 
 func (w *mqQ) Do(a Act) tr.E {
 	switch a.Op {
 	case "add":
-		x := mkItem(w.rep, a.V)
+		x := w.value(a)
 		var err error
 		switch {
 		case a.Lane == "ctrl" && a.Prior:
@@ -335,9 +479,9 @@ func (w *mqQ) Do(a Act) tr.E {
 		return Rb(w.q.IsCleared())
 	case "addw":
 		if a.Lane == "ctrl" {
-			return errReply(w.q.AddCtrlAnyway(mkItem(w.rep, a.V), addwSleep), mq.ErrClosed, mq.ErrCtrlQFull, mq.ErrReqQFull)
+			return errReply(w.q.AddCtrlAnyway(w.value(a), addwSleep), mq.ErrClosed, mq.ErrCtrlQFull, mq.ErrReqQFull)
 		}
-		return errReply(w.q.AddReqAnyway(mkItem(w.rep, a.V), addwSleep), mq.ErrClosed, mq.ErrCtrlQFull, mq.ErrReqQFull)
+		return errReply(w.q.AddReqAnyway(w.value(a), addwSleep), mq.ErrClosed, mq.ErrCtrlQFull, mq.ErrReqQFull)
 	case "waitclose":
 		return waitReply(w.q.WaitClose(ctxFor(a.Bg)))
 	case "waitclear":
@@ -350,14 +494,14 @@ func (w *mqQ) Obs() tr.E { return tr.E{"closed": w.q.IsClosed(), "cleared": w.q.
 
 type syncQ struct {
 	keepT
-	q   *syncq.SyncQueue
-	rep int
+	q *syncq.SyncQueue
+	values
 }
 
 func (w *syncQ) Do(a Act) tr.E {
 	switch a.Op {
 	case "add":
-		w.q.Push(mkItem(w.rep, a.V))
+		w.q.Push(w.value(a))
 		return Rp("ok", 0)
 	case "pop":
 		x := w.q.Pop()
@@ -406,18 +550,25 @@ func (w *priQ) Do(a Act) tr.E {
 		if w.prios != nil {
 			pr = w.prios[a.Pr-1]
 		}
-		err := w.q.Push(&pitem{a.V, pr})
+		var e priq.IEntry = &pitem{a.V, pr}
+		switch a.Vk {
+		case VkStruct:
+			e = vitem{a.V, pr}
+		case VkSlice:
+			e = uitem{[]int{a.V}, pr}
+		}
+		err := w.q.Push(e)
 		return errReply(err, nil, priq.ErrQueueIsFull)
 	case "pop":
 		e := w.q.Pop()
 		if e == nil {
 			return Rp("empty", 0)
 		}
-		if it, ok := e.(*pitem); ok && it != nil {
+		if id, ok := entryID(e); ok {
 			if w.keep != nil {
 				w.keep(e)
 			}
-			return Rp("item", it.id)
+			return Rp("item", id)
 		}
 		return Rp("foreign", 0)
 	case "len":
@@ -433,20 +584,20 @@ func New(kind string, ccap, rcap, rep int) Queue {
 	switch kind {
 	case "q":
 		if rcap == 0 && rep%2 == 0 {
-			return &qQ{q: pq.NewQ(), rep: rep}
+			return &qQ{q: pq.NewQ(), values: values{rep: rep}}
 		}
-		return &qQ{q: pq.NewQ(pq.WithSize(rcap)), rep: rep}
+		return &qQ{q: pq.NewQ(pq.WithSize(rcap)), values: values{rep: rep}}
 	case "async":
-		return &asyncQ{q: aq.NewQ(rcap), rep: rep}
+		return &asyncQ{q: aq.NewQ(rcap), values: values{rep: rep}}
 	case "mux":
-		return &muxQ{q: muxq.NewQ(rcap), rep: rep}
+		return &muxQ{q: muxq.NewQ(rcap), values: values{rep: rep}}
 	case "mq":
 		if ccap == 0 && rcap == 0 && rep%2 == 0 {
-			return &mqQ{q: mq.NewMQ(), rep: rep}
+			return &mqQ{q: mq.NewMQ(), values: values{rep: rep}}
 		}
-		return &mqQ{q: mq.NewMQ(mq.WithQCtrlSize(ccap), mq.WithQReqSize(rcap)), rep: rep}
+		return &mqQ{q: mq.NewMQ(mq.WithQCtrlSize(ccap), mq.WithQReqSize(rcap)), values: values{rep: rep}}
 	case "syncq":
-		return &syncQ{q: syncq.NewSyncQueue(), rep: rep}
+		return &syncQ{q: syncq.NewSyncQueue(), values: values{rep: rep}}
 	case "priq":
 		return &priQ{q: priq.NewPriQueue(rcap)}
 	}
@@ -599,4 +750,35 @@ func (m *Model) Apply(a Act) {
 			m.Cleared = true
 		}
 	}
+}
+
+// Dress chooses the value of the item of an add (seeded, harness side): mostly the trace's default
+// representation, otherwise one of the special values; `earlier` are the ids added before in this
+// trace with the default pointer representation (for "the same pointer again").
+func Dress(rnd func(int) int, kind string, rep int, a *Act, earlier []int) {
+	if a.Op != "add" && a.Op != "addw" && a.Op != "push" {
+		return
+	}
+	if rnd(100) >= 22 {
+		return
+	}
+	if kind == "priq" { // entries must implement IEntry; a nil entry panics in GetPriority on the clean tree
+		a.Vk = []int{VkStruct, VkSlice}[rnd(2)]
+		return
+	}
+	ks := []int{VkNil, VkTypedNil, VkZeroInt, VkEmptyStr, VkSlice, VkMap, VkFunc, VkStruct, VkSame, VkNil, VkTypedNil}
+	vk := ks[rnd(len(ks))]
+	if vk == VkNil && kind == "syncq" {
+		vk = VkTypedNil // SyncQueue.Pop reports "closed" as a nil item: an untyped nil item is not distinguishable
+	}
+	same := 0
+	if vk == VkSame {
+		if rep != 2 || len(earlier) == 0 {
+			vk = VkStruct
+		} else {
+			same = earlier[rnd(len(earlier))]
+		}
+	}
+	a.Vk = vk
+	a.Val = ClassOf(vk, a.V, same)
 }
